@@ -30,7 +30,82 @@ type boundsCtx struct {
 }
 
 func newBoundsCtx(p *Prog, fn *ssa.Function) *boundsCtx {
-	return &boundsCtx{p: p, fn: fn, z: newZone(), names: map[ssa.Value]string{}, lens: map[ssa.Value]lterm{}, pathMin: map[string]int64{}}
+	bc := &boundsCtx{p: p, fn: fn, z: newZone(), names: map[ssa.Value]string{}, lens: map[ssa.Value]lterm{}, pathMin: map[string]int64{}}
+	bc.libraryCallbackFacts()
+	return bc
+}
+
+// libraryCallbackFacts: a closure that is only used as the callback of rand.Shuffle(n, swap), sort.Slice(x, less),
+// sort.SliceStable or sort.Search(n, f) receives indices in [0, n) - the library's contract. When n is len(x) of a
+// variable the closure captures (or x itself for sort.Slice), the integer parameters are bounded by that length.
+func (bc *boundsCtx) libraryCallbackFacts() {
+	fn := bc.fn
+	par := fn.Parent()
+	if par == nil {
+		return
+	}
+	var mc *ssa.MakeClosure
+	eachInstr(par, func(_ *ssa.BasicBlock, _ int, in ssa.Instruction) {
+		if m, ok := in.(*ssa.MakeClosure); ok && m.Fn == ssa.Value(fn) {
+			mc = m
+		}
+	})
+	if mc == nil {
+		return
+	}
+	for _, r := range *mc.Referrers() {
+		call, ok := r.(*ssa.Call)
+		if !ok {
+			return // used otherwise: no contract
+		}
+		if !isCallTo(call, "math/rand.Shuffle", "sort.Slice", "sort.SliceStable", "sort.Search") {
+			return
+		}
+		var container ssa.Value
+		a0 := call.Call.Args[0]
+		if lc, ok := a0.(*ssa.Call); ok {
+			if b, isB := lc.Call.Value.(*ssa.Builtin); isB && b.Name() == "len" {
+				container = lc.Call.Args[0]
+			}
+		}
+		if mi, ok := a0.(*ssa.MakeInterface); ok {
+			container = mi.X
+		}
+		if container == nil {
+			return
+		}
+		// the container as the closure sees it: a captured variable
+		u, ok := container.(*ssa.UnOp)
+		if !ok || u.Op != token.MUL {
+			return
+		}
+		k := -1
+		for i, b := range mc.Bindings {
+			if b == u.X {
+				k = i
+			}
+		}
+		if k < 0 || k >= len(fn.FreeVars) {
+			return
+		}
+		var inner ssa.Value
+		eachInstr(fn, func(_ *ssa.BasicBlock, _ int, in ssa.Instruction) {
+			if l, ok := in.(*ssa.UnOp); ok && l.Op == token.MUL && l.X == ssa.Value(fn.FreeVars[k]) && inner == nil {
+				inner = l
+			}
+		})
+		if inner == nil {
+			return
+		}
+		L := bc.lenOf(inner)
+		for _, prm := range fn.Params {
+			if b, ok := prm.Type().Underlying().(*types.Basic); ok && b.Info()&types.IsInteger != 0 {
+				t := bc.term(prm)
+				bc.z.addLE(lconst(0), t)
+				bc.z.addLT(t, L)
+			}
+		}
+	}
 }
 
 func (bc *boundsCtx) name(v ssa.Value) string {
